@@ -127,7 +127,7 @@ class Ctx(object):
             path = self.violations[-1][2]
         self.violations.append((mech, msg, path))
 
-    def sanitizer(self, text, case=None, deciding=True, mech_prefix='sanitizer'):
+    def sanitizer(self, text, case=None, deciding=True, mech_prefix='sanitizer', mech_of=None):
         """Record sanitizer report blocks found in `text`; de-duplicated by
         (kind, top cffi frame).  deciding=True turns each into a violation."""
         for kind, frame, block in split_reports(text):
@@ -137,7 +137,8 @@ class Ctx(object):
                 continue
             self.san_reports[key] = self.san_reports.get(key, 0) + 1
             if deciding:
-                self.violation('%s:%s' % (mech_prefix, key), block[:1500], case)
+                mech = mech_of(case, key, block) if mech_of else None
+                self.violation(mech or '%s:%s' % (mech_prefix, key), block[:1500], case)
 
     # ---- finish --------------------------------------------------------
     def finish(self):
@@ -373,7 +374,7 @@ def run_cases(ctx, modname, setup, cases, variant='asan', nproc=None, timeout=60
     return out
 
 
-def std_obs_check(ctx, case, obs, crash_decides=True, san_decides=True):
+def std_obs_check(ctx, case, obs, crash_decides=True, san_decides=True, san_mech=None):
     """Common handling of infrastructure / crash / sanitizer side of an obs.
     Returns True if the obs is usable for the property's own judge."""
     if obs is None:
@@ -393,7 +394,7 @@ def std_obs_check(ctx, case, obs, crash_decides=True, san_decides=True):
     if '_crash' in obs:
         ctx.count('child_crashes')
         if obs.get('_san'):
-            ctx.sanitizer(obs['_san'], case, deciding=san_decides)
+            ctx.sanitizer(obs['_san'], case, deciding=san_decides, mech_of=san_mech)
         if crash_decides:
             ctx.violation('crash:rc=%s' % obs['_crash'],
                           'child process died (rc=%s) while running the case\n%s' %
@@ -402,7 +403,7 @@ def std_obs_check(ctx, case, obs, crash_decides=True, san_decides=True):
             ctx.inconclusive('child crashed rc=%s' % obs['_crash'])
         return False
     if obs.get('_san'):
-        ctx.sanitizer(obs['_san'], case, deciding=san_decides)
+        ctx.sanitizer(obs['_san'], case, deciding=san_decides, mech_of=san_mech)
     return True
 
 
@@ -419,7 +420,7 @@ def drive(mod, ctx):
                     timeout=getattr(mod, 'TIMEOUT', 900))
     for c, o in zip(cases, obs):
         if std_obs_check(ctx, c, o, getattr(mod, 'CRASH_DECIDES', True),
-                         getattr(mod, 'SAN_DECIDES', True)):
+                         getattr(mod, 'SAN_DECIDES', True), getattr(mod, 'san_mechanism', None)):
             mod.judge(ctx, setup, c, o)
 
 
@@ -471,7 +472,8 @@ def generic_replay(mod, ctx, data):
     obs = run_cases(ctx, mod.__name__.split('.')[-1], setup, [case],
                     variant=getattr(mod, 'VARIANT', 'asan'), nproc=1)
     print('observation:', json.dumps(obs[0], default=repr)[:3000])
-    if std_obs_check(ctx, case, obs[0]):
+    if std_obs_check(ctx, case, obs[0], getattr(mod, 'CRASH_DECIDES', True),
+                     getattr(mod, 'SAN_DECIDES', True), getattr(mod, 'san_mechanism', None)):
         mod.judge(ctx, setup, case, obs[0])
 
 
